@@ -628,9 +628,43 @@ def linear(e):
             if set(b) <= {"1"}:
                 c = b.get("1", 0)
                 return {k: v * c for k, v in a.items()}
+        if e[0] == "bin" and e[1] == "Shl" and isinstance(e[3], tuple) and e[3][0] == "const" and isinstance(e[3][1], int) and 0 <= e[3][1] < 63:
+            a = linear(e[2])
+            return {k: v << e[3][1] for k, v in a.items()}
         if e[0] == "cast":
             return linear(e[1])
+    ATOM_EXPR[repr(e)] = e
     return {repr(e): 1}
+
+
+ATOM_EXPR = {}
+
+
+def expand_min(forms):
+    """x - min(a, b) + c <= 0 implies x - a + c <= 0 and x - b + c <= 0 (min(a,b) <= a, b)"""
+    out = list(forms)
+    work = list(forms)
+    seen = 0
+    while work and seen < 200:
+        seen += 1
+        k = work.pop()
+        tag = None
+        if isinstance(k, tuple):
+            tag, k = k
+        for atom, co in list(k.items()):
+            if atom == "1" or co >= 0:
+                continue
+            e = ATOM_EXPR.get(atom)
+            if isinstance(e, tuple) and e[0] == "call" and re.search(r"::min$", e[1]) and len(e[2]) == 2:
+                for arg in e[2]:
+                    n = {kk: v for kk, v in k.items() if kk != atom}
+                    for kk, v in linear(arg).items():
+                        n[kk] = n.get(kk, 0) + co * v
+                    n = {kk: v for kk, v in n.items() if v or kk == "1"}
+                    item = (tag, n) if tag else n
+                    out.append(item)
+                    work.append(item)
+    return out
 
 
 def lin_sub(a, b):
@@ -648,6 +682,13 @@ def cond_to_le0(e, truth):
         neg = not neg
     if neg:
         truth = not truth
+    if isinstance(e, tuple) and e[0] == "call" and re.search(r"::is_empty$", e[1]) and len(e[2]) == 1 and not truth:
+        # !x.is_empty()  =>  len(x) >= 1, for each spelling of len
+        out = []
+        for lenfn in ("core::slice::<impl [T]>::len", "alloc::vec::Vec::<T, A>::len"):
+            out.append({repr(("call", lenfn, e[2])): -1, "1": 1})
+        out.append({repr(("len", e[2][0])): -1, "1": 1})
+        return out
     if not (isinstance(e, tuple) and e[0] == "bin" and e[1] in ("Lt", "Le", "Eq", "Ne")):
         return []
     op, a, b = e[1], linear(e[2]), linear(e[3])
@@ -665,12 +706,22 @@ def cond_to_le0(e, truth):
         return [d, nd]
     if op == "Ne" and not truth:
         return [d, nd]
+    # x != 0 for a non-negative quantity: x >= 1 (callers use this only for unsigned operands / lengths)
+    if (op == "Eq" and not truth) or (op == "Ne" and truth):
+        for x, z in ((a, b), (b, a)):
+            if set(z) <= {"1"} and z.get("1", 0) == 0:
+                y = {k: -v for k, v in x.items()}
+                y["1"] = y.get("1", 0) + 1
+                return [("nonneg", y)]
     return []
 
 
-def implies_le0(known, target):
+def implies_le0(known, target, unsigned=True):
     """do the known forms (each <= 0) contain one that implies target <= 0?
-    (same non-constant part and a constant at least as large), or a sum of two that does"""
+    (same non-constant part, possibly scaled by a positive integer, and a constant at least as
+    large), or a sum of two that does.  Facts tagged ("nonneg", form) hold for unsigned operands."""
+    known = [k[1] if isinstance(k, tuple) else k for k in known if not isinstance(k, tuple) or unsigned]
+
     def split(x):
         c = x.get("1", 0)
         r = {k: v for k, v in x.items() if k != "1" and v}
@@ -682,6 +733,21 @@ def implies_le0(known, target):
         kr, kc = split(k)
         if kr == tr and kc >= tc:
             return True
+        # scaled: target = m * k (m positive integer)
+        if kr and set(kr) == set(tr):
+            a0 = next(iter(kr))
+            if kr[a0] != 0 and tr[a0] % kr[a0] == 0:
+                m = tr[a0] // kr[a0]
+                if m > 1 and all(tr[x] == m * kr[x] for x in kr) and m * kc >= tc:
+                    return True
+    if unsigned:
+        # target = k - (non-negative terms): every atom is an unsigned quantity (>= 0)
+        for k in known:
+            d = dict(target)
+            for kk, v in k.items():
+                d[kk] = d.get(kk, 0) - v
+            if all(v <= 0 for kk, v in d.items()):
+                return True
     for i, k1 in enumerate(known):
         for k2 in known[i + 1:]:
             s = dict(k1)
@@ -700,4 +766,4 @@ def known_le0(func, block, ex=None):
         if t is None:
             continue
         out.extend(cond_to_le0(e, t))
-    return out
+    return expand_min(out)
